@@ -25,6 +25,9 @@ def conditions(tier):
         cs.append(Cond(M, "interpolate_literal", {"hlen": 2, "vlen": 1 if q else 2, "tlen": 4 if q else 5, "fix": {"i1": i}}, T=600 if q else 3000))
         cs.append(Cond(M, "interpolate_two_columns", {"vlen": 2, "tlen": 3 if q else 5, "fix": {"i1": i}, "h2": "b" if i % 2 else "a.b"}, T=600 if q else 3000))
         cs.append(Cond(M, "through_compile", {"vlen": 1 if q else 2, "tlen": 3 if q else 4, "fix": {"i1": i}}, T=600 if q else 3000))
+    # a shorter header before a longer one, and a value that spells the later placeholder: header order decides
+    cs.append(Cond(M, "interpolate_two_columns", {"vlen": 3, "tlen": 3, "fix": {"i1": 0}, "h2": "b"}, T=900, label="c09.two_columns[a,b; value<=3]"))
+    cs.append(Cond(M, "interpolate_two_columns", {"vlen": 2, "tlen": 4, "fix": {"i1": 0}, "h2": ""}, T=900, label="c09.two_columns[a,''; value<=2]"))
     cs.append(Cond(M, "two_tables", {"vlen": 1 if q else 2, "tlen": 4 if q else 6}, T=600 if q else 3000))
     cs.append(Cond(M, "twin_never_substitutes", T=60, expect="cex"))
     return cs
